@@ -66,6 +66,9 @@ type Config struct {
 	AC         func(replica int) accesscontroller.Interface
 }
 
+// SortFnOrNil exposes the configured ordering (nil = library default).
+func (c *Config) SortFnOrNil() iface.EntrySortFn { return c.sortFn() }
+
 func (c *Config) sortFn() iface.EntrySortFn {
 	if c.HashTie {
 		return sorting.SortByEntryHash
